@@ -74,7 +74,7 @@ def countSet (gs : List GVal) : Nat := (gs.filter (!·.isNil)).length
 def finishStruct (sd : StructDef) (st : FState) : Res GVal :=
   match finishFields sd.fields st with
   | .error e => .error e
-  | .ok gs => if arityOk sd.kind (countSet gs) then .ok (.struct gs) else .error .bad
+  | .ok gs => if arityOkS sd (countSet gs) then .ok (.struct gs) else .error .bad
 
 /-! ### FromWire (value path) -/
 
@@ -397,7 +397,7 @@ def encodeS (env : Env) : Nat → Ty → GVal → Res (List WriteOp)
         | .error er => .error er
         | .ok ops =>
           -- the arity rule counts non-nil fields (after the fields were written)
-          if arityOk sd.kind (countSet (gs.take sd.fields.length))
+          if arityOkS sd (countSet (gs.take sd.fields.length))
           then .ok (.structBegin :: (ops ++ [.structEnd])) else .error .bad
     | _, _ => .error .bad
 
